@@ -73,4 +73,21 @@ theorem facts_dirty_flags :
     fields through the setters, which mark the object and the field dirty again. -/
 theorem facts_no_undo_assigns_a_dirty_flag : TrieDbFacts.undoDirtyFieldAssignments = [] := by decide
 
+/-- The only fork / network flags the state path reads are `IsProposal002` (in
+    `AddFT`/`SubFT`: journaled `SetData` or direct `setData`) and `IsSub` (slot
+    position of the balance binding); the harness runs schedules on both sides of
+    Proposal002.  The only package-level variables written by functions of
+    `storage/trie` and `storage/account` are the logger (at `Init`) and the cached
+    token-contract address (`loadContractCache`): no scratch buffer or table shared
+    across calls sits on the commit path.  A new flag read or a new global write
+    changes these lists. -/
+theorem facts_fork_flags_and_globals :
+    TrieDbFacts.forkFlagReads =
+      ["src/storage/account/accountdb_eth.go:GetERC20Binding:IsSub",
+       "src/storage/account/accountdb_tuntun.go:AddFT:IsProposal002",
+       "src/storage/account/accountdb_tuntun.go:SubFT:IsProposal002"] ∧
+    TrieDbFacts.packageLevelWrites =
+      ["src/storage/account/accountdb_eth.go:loadContractCache:rpgContractAddress",
+       "src/storage/account/init.go:Init:accountLog"] := by decide
+
 end Rangers.Props.C03Facts
